@@ -35,12 +35,15 @@ OUTSIDE = ['trees beyond the bound; the prefix of arbitrary Unicode concepts '
            '(str.isalpha/lower are the interpreter\'s)']
 
 CONCEPTS = ['alpha', 'Beta', 'éa', '12', '"string"', NO_CONCEPT, 'b', 'a2']
-ATOMS = ['a', 'b~e.5', 'c', 'x', 'a2', '"a"']
+# node variables are a, _, _2, 0v (names as a previous relabelling or a
+# concept-less node leaves them); references to each of them
+VARNAMES = ['a', '_', '_2', '0v']
+ATOMS = ['a', '_~e.5', '_2', 'x', 'a2', '"a"', '0v']
 ROLES = [':r', ':r-of~1']
 FORMATS = ['{prefix}{j}', '{prefix}{i}', 'x{i}', '{j}{prefix}',
            '{prefix}{i}{j}']
 CONCEPTS_S = ['alpha', NO_CONCEPT, 'b']
-ATOMS_S = ['a', 'b~e.5', 'x']
+ATOMS_S = ['a', '_~e.5', 'x']
 
 
 def ref_prefix(concept):
@@ -93,7 +96,8 @@ def h_relabel(n: int, fi: int, small: bool, **sym):
     real, ref = models.get('default')
     concepts = CONCEPTS_S if small else CONCEPTS
     atoms = ATOMS_S if small else ATOMS
-    node = progs.tree_program(sym, n, ROLES, atoms, concepts)
+    node = progs.tree_program(sym, n, ROLES, atoms, concepts,
+                              varnames=VARNAMES)
     fmt = FORMATS[fi]
     varmap = ref_varmap(node, fmt)
     require(len(set(varmap.values())) == len(varmap), 'oracle: bijection')
